@@ -259,6 +259,9 @@ Definition get_destdir_path (destdir fullprefix p : path) : path :=
 Definition do_copyfile (c : cfg) (src : srcfile) (to_file : path) (mk : option path) : M bool :=
   match src with
   | SReg smode smtime dg =>
+      (* with the pending fix C11-symlink-write-through: a symbolic link in the way is removed first *)
+      il <- query (fun f => q_islink f to_file) ;;
+      (if il : bool then mutate c (fun f => m_unlink f to_file) else ret tt) ;;;
       e <- query (fun f => q_exists f to_file) ;;
       go <- (if e : bool then
                isf <- query (fun f => q_isfile f to_file) ;;
